@@ -1,8 +1,9 @@
-(* C13 - Base64, hexadecimal and XOR decodings are bit-exact.  Statements pinned from Proofs/Base64Proofs.v, Proofs/HexProofs.v, Proofs/B64HexProofs.v by harness/mkprop.py.  Known finding F11 (HEX_RE alternation order) concerns span SELECTION by the regex engine, not these codec laws. *)
+(* C13 - Base64, hexadecimal and XOR decodings are bit-exact.  Statements pinned from Proofs/Base64Proofs.v, Proofs/HexProofs.v, Proofs/B64HexProofs.v by harness/mkprop.py.  Known finding F11 (HEX_RE alternation order) concerns span SELECTION by the regex engine, not these codec laws.  The converse for the CALL FORMS is now proved end to end (round-trip theorems below); for the bare base64 / hex forms (validity heuristics) it remains exercised. *)
 From MD Require Import Lib.Base Model.Node Model.Codec.Base64 Model.Codec.Hex Model.Dec.ReLib Model.Dec.B64Hex.
 From MD Require Import Proofs.Base64Proofs Proofs.HexProofs Proofs.B64HexProofs.
 From MD Require Generated.Consts.
 From MD Require Import Regex.Syntax Generated.Regexes Proofs.Shapes1 Proofs.Shapes2.
+From MD Require Import Regex.LocalityProofs Proofs.RoundTrip.
 
 (* RFC 4648: decode (encode p) = p for every payload (all lengths mod 3) *)
 Theorem C13_b64_roundtrip : forall p : bytes, wf_bytes p -> b64_decode_strict (b64_encode p) = Some p.
@@ -143,6 +144,40 @@ Print Assumptions C13_xorkey_range.
 Theorem C13_ps_bytes_total : forall (xortool : bytes -> list bytes) (data : bytes), find_powershell_bytes xortool data = Hang \/ (exists nodes : list node, find_powershell_bytes xortool data = Ok nodes /\ Forall (psb_node_ok xortool data) nodes).
 Proof. exact find_powershell_bytes_total. Qed.
 Print Assumptions C13_ps_bytes_total.
+
+(* CONVERSE HALF, call forms: END-TO-END ROUND TRIP (Proofs/RoundTrip.v): for EVERY payload, the encoded form embedded after any neutral prefix (no byte that can start a match of the pattern) and before ANY suffix is found by the model's matcher on the regenerated pattern, as ONE node with exactly the form's span and the payload as value; later nodes start after it.  `Hang` (matcher fuel on the arbitrary suffix) is the only alternative. *)
+Theorem C13_atob_roundtrip : forall (pre : list N) (p : bytes) (suf : list N) (q q' : N), wf_bytes p -> p <> [] -> is_quote q -> is_quote q' -> (Datatypes.length (b64_encode p) + 64 <= Backtrack.default_fuel)%nat -> neutral RE_base64_ATOB_RE pre = true -> let form := s2b "atob(" ++ [q] ++ b64_encode p ++ [q'] ++ s2b ")" in let data := pre ++ form ++ suf in find_atob data = Hang \/ (exists rest : list node, find_atob data = Ok (Node (s2b "javascript.string") p ENC_B64 (blen pre) (blen pre + blen form) [] :: rest) /\ Forall (fun nd : node => blen pre + blen form <= n_st nd) rest).
+Proof. exact find_atob_roundtrip. Qed.
+Print Assumptions C13_atob_roundtrip.
+
+(* the same under the weaker hypothesis that no match of the pattern starts inside the prefix *)
+Theorem C13_atob_roundtrip_quiet : forall (pre : list N) (p : bytes) (suf : list N) (q q' : N), wf_bytes p -> p <> [] -> is_quote q -> is_quote q' -> (Datatypes.length (b64_encode p) + 64 <= Backtrack.default_fuel)%nat -> let form := s2b "atob(" ++ [q] ++ b64_encode p ++ [q'] ++ s2b ")" in let data := pre ++ form ++ suf in quiet Backtrack.default_fuel RE_base64_ATOB_RE (Datatypes.length pre) (Backtrack.start_pos data) -> find_atob data = Hang \/ (exists rest : list node, find_atob data = Ok (Node (s2b "javascript.string") p ENC_B64 (blen pre) (blen pre + blen form) [] :: rest) /\ Forall (fun nd : node => blen pre + blen form <= n_st nd) rest).
+Proof. exact find_atob_roundtrip_quiet. Qed.
+Print Assumptions C13_atob_roundtrip_quiet.
+
+(* any letter case of the function name *)
+Theorem C13_Base64Decode_roundtrip : forall (nm : bytes) (pre : list N) (p : bytes) (suf : list N) (q q' : N), lower nm = s2b "base64decode(" -> wf_bytes p -> p <> [] -> is_quote q -> is_quote q' -> (Datatypes.length (b64_encode p) + 64 <= Backtrack.default_fuel)%nat -> neutral RE_base64_BASE64DECODE_RE pre = true -> let form := nm ++ [q] ++ b64_encode p ++ [q'] ++ s2b ")" in let data := pre ++ form ++ suf in find_Base64Decode data = Hang \/ (exists rest : list node, find_Base64Decode data = Ok (Node (s2b "vba.string") p ENC_B64 (blen pre) (blen pre + blen form) [] :: rest) /\ Forall (fun nd : node => blen pre + blen form <= n_st nd) rest).
+Proof. exact find_Base64Decode_roundtrip. Qed.
+Print Assumptions C13_Base64Decode_roundtrip.
+
+(* no xor key in the text (hypothesis on prefix and suffix) *)
+Theorem C13_FromBase64String_roundtrip : forall (nm : bytes) (pre : list N) (p : bytes) (suf : list N) (q q' : N), lower nm = s2b "frombase64string(" -> wf_bytes p -> p <> [] -> is_quote q -> is_quote q' -> (Datatypes.length (b64_encode p) + 64 <= Backtrack.default_fuel)%nat -> neutral RE_base64_FROMB64STRING_RE pre = true -> neutral RE_xor_helper_XOR_RE pre = true -> neutral RE_xor_helper_XOR_RE suf = true -> let form := nm ++ [q] ++ b64_encode p ++ [q'] ++ s2b ")" in let data := pre ++ form ++ suf in find_FromBase64String data = Hang \/ (exists rest : list node, find_FromBase64String data = Ok (Node (s2b "powershell.bytes") p ENC_B64 (blen pre) (blen pre + blen form) [] :: rest) /\ Forall (fun nd : node => blen pre + blen form <= n_st nd) rest).
+Proof. exact find_FromBase64String_roundtrip. Qed.
+Print Assumptions C13_FromBase64String_roundtrip.
+
+(* at least 10 payload bytes *)
+Theorem C13_FromHexString_roundtrip : forall (nm : bytes) (pre : list N) (p : bytes) (suf : list N), lower nm = s2b "fromhexstring(" -> wf_bytes p -> (10 <= Datatypes.length p)%nat -> (Datatypes.length (hexlify p) + 64 <= Backtrack.default_fuel)%nat -> neutral RE_hex_FROMHEXSTRING_RE pre = true -> neutral RE_xor_helper_XOR_RE pre = true -> neutral RE_xor_helper_XOR_RE suf = true -> let form := nm ++ s2b "'" ++ hexlify p ++ s2b "')" in let data := pre ++ form ++ suf in find_FromHexString data = Hang \/ (exists rest : list node, find_FromHexString data = Ok (Node (s2b "powershell.bytes") p ENC_HEX (blen pre) (blen pre + blen form) [] :: rest) /\ Forall (fun nd : node => blen pre + blen form <= n_st nd) rest).
+Proof. exact find_FromHexString_roundtrip. Qed.
+Print Assumptions C13_FromHexString_roundtrip.
+
+Theorem C13_neutral_prefix_is_quiet : forall (r : re) (pre body : list N), startable r = true -> (spine r <= Backtrack.default_fuel)%nat -> neutral r pre = true -> quiet Backtrack.default_fuel r (Datatypes.length pre) (Backtrack.start_pos (pre ++ body)).
+Proof. exact quiet_no_first. Qed.
+Print Assumptions C13_neutral_prefix_is_quiet.
+
+(* generic: a form the pattern runs over exactly is the first match after a neutral prefix *)
+Theorem C13_form_is_matched : forall (r : re) (ng : nat) (pre form suf : list N) (n : nat) (cf : Z -> Backtrack.caps -> Backtrack.caps), startable r = true -> (spine r <= Backtrack.default_fuel)%nat -> neutral r pre = true -> runs n r form suf cf -> (n <= Backtrack.default_fuel)%nat -> form <> [] -> fi r ng (pre ++ form ++ suf) = Hang \/ (exists rest : list Backtrack.mtch, fi r ng (pre ++ form ++ suf) = Ok (Backtrack.mk_mtch ng (blen pre) (blen pre + blen form) (cf (blen pre) []) :: rest) /\ Forall (fun mt : Backtrack.mtch => blen pre + blen form <= m_start mt 0) rest).
+Proof. exact fi_form_neutral. Qed.
+Print Assumptions C13_form_is_matched.
 
 Theorem C13_min_chars_tied : MIN_B64_CHARS = Generated.Consts.G_MIN_B64_CHARS.
 Proof. reflexivity. Qed.
